@@ -138,6 +138,21 @@ def programs():
         out.append(("method named " + gname, "class G { public constructor() -> G = default; public function %s() -> int { return 7; } public function use() -> int { return %s() + this.%s(); } }\n"
                     "function main() -> void { G g = new G(); echo(g.use()); echo(g.%s()); }\n" % (gname, gname, gname, gname)))
         out.append(("variable named " + gname, "function main() -> void { int %s = 3; echo(%s + 1); qubit t; }\n" % (gname, gname)))
+    # plain classes over one to three generic layers over a plain root with initialised fields, in every declaration order of the four
+    # (the layout of every class in the chain must exist before anything above it is laid out)
+    chain = ["class Inventory extends Tagged<int> { public int count = 3; public constructor() -> Inventory { super(); } public function total() -> int { return count + code + id; } }\n",
+             "class Tagged<T> extends Stored<T> { public T tag; public constructor() -> Tagged<T> { super(); } }\n",
+             "class Stored<T> extends Record { public int code = 6; public constructor() -> Stored<T> { super(); } }\n",
+             "class Record { public int id = 700; public string name = \"rec\"; public constructor() -> Record = default; public function label() -> string { return name + id; } }\n"]
+    bare = ["class Inventory extends Tagged<int> { public constructor() -> Inventory { super(); } }\n",
+            "class Tagged<T> extends Stored<T> { public constructor() -> Tagged<T> { super(); } }\n",
+            "class Stored<T> extends Record { public constructor() -> Stored<T> { super(); } }\n",
+            "class Record { public int id = 7; public int version = 9; public constructor() -> Record = default; public function stamp() -> int { return this.id * 100 + this.version; } }\n"]
+    for perm in itertools.permutations(range(4)):
+        out.append(("generic layers over a plain root %s" % (perm,), "".join(chain[i] for i in perm) +
+                    "function main() -> void { Inventory v = new Inventory(); echo(v.total()); echo(v.label()); Stored<string> s = new Stored<string>(); echo(s.code + s.id); }\n"))
+        out.append(("field-less generic layers over a plain root %s" % (perm,), "".join(bare[i] for i in perm) +
+                    "function main() -> void { Inventory v = new Inventory(); echo(v.stamp()); Tagged<string> t = new Tagged<string>(); echo(t.stamp()); }\n"))
     # deep recursion within the documented bound
     out.append(("recursion 200", "function down(int n) -> int { if (n <= 0) { return 0; } return 1 + down(n - 1); }\nfunction main() -> void { echo(down(200)); }\n"))
     # cx on one qubit
